@@ -669,6 +669,23 @@ def r17_5_response(rep, facts):
                       "variables, the empty one included, is answered by one GetValuesResult" % [x.split("::")[-1] for x in short], b.loc())
     elif n_ret:
         rep.ok("R17.5", "write_response/every-path-one-record", "all %d return paths build the header, set its lengths and store it" % n_ret, b.loc())
+    # the header that is stored is the one set_lengths sized: its length fields are not written in any other way
+    lw = None
+    for cb_ in [b] + [x for x in facts.bodies if x.npath.startswith(b.npath + "::{closure") and not x.promoted]:
+        for blk_ in cb_.blocks:
+            if blk_.get("cleanup"):
+                continue
+            for st_ in blk_["st"]:
+                if st_["k"] != "assign" or (st_.get("sp") or {}).get("n"):
+                    continue
+                for el in st_["place"].get("p", []):
+                    if el.get("n") in ("content_length", "padding_length") and F.norm(el.get("of", "")) == "protocol::RecordHeader":
+                        lw = lw or (el.get("n"), st_.get("sp") or {})
+    if lw is not None:
+        rep.violation("R17.5", "write_response/header-as-sized", "write_response assigns %s of the reply header itself: the stored header is no longer the (content, padding) pair "
+                      "set_lengths computed, so content + padding need not be a multiple of 8 or need not match the bytes appended" % lw[0], "%s:%s" % (lw[1].get("f"), lw[1].get("l")))
+    else:
+        rep.ok("R17.5", "write_response/header-as-sized", "the reply header's length fields are written by set_lengths only", b.loc())
     flag_vals = {}
     def _bit(v):
         c = const_by_suffix(facts, "::" + v, "protocol::vars::ProtocolVariables")
